@@ -34,9 +34,12 @@ PROPS = {
             # debug_assert!s in release / retain / get_binary_data), so for these units every class counts
             "heap": (None, ALL),
             "handlers": (None, ALL),
-            "coldpath": (None, ALL),
-            "select": (None, ALL),
-            "step": (None, ALL),
+            # units that mix select / scheduling semantics with accounting: every safety obligation, and of the others
+            # those whose failing conjunct is about the counts (a drift is a debug-build panic) or about failure
+            # containment (topic "crash", cli._topic_ok)
+            "coldpath": (None, ALL, "crash"),
+            "select": (None, ALL, "crash"),
+            "step": (None, ALL, "crash"),
             "equality": [(["Executor::handle_equal"], ALL), (None, ("safety",))],
             "transfer": (None, ("safety",)),
             "builtins_binary": (None, ("safety",)),
@@ -48,7 +51,8 @@ PROPS = {
     "C05": {
         "title": "Select follows its documented semantics (one entry of the Select instruction, function-level)",
         "units": {
-            "select": (None, ALL),
+            # the conjuncts that are not about the counts (topic "sem"): a leak in the select machinery is C06's
+            "select": (None, ALL, "sem"),
             "coldpath": (
                 [
                     "Executor::get_process",
@@ -58,16 +62,17 @@ PROPS = {
                     "Executor::handle_select_process",
                     "Executor::ensure_select_start_time",
                     "Executor::handle_select_continuation",
+                    "Executor::mark_selecting",
                     # arrivals between entries: a message is appended at the back of the mailbox, an await answer is
                     # recorded; neither may touch the select state's cursors
                     "Executor::notify_message",
                     "Executor::notify_result",
                 ],
                 ALL,
+                "sem",
             ),
-            "heap": (["Executor::retain", "Executor::release", "Executor::push_value", "Executor::pop_value"], ALL),
             # the expiry wake-up: exactly the parked processes one of whose timeouts has run out go back to the run queue
-            "step": (["Executor::check_expired_timeouts"], ALL),
+            "step": (["Executor::check_expired_timeouts"], ALL, "sem"),
         },
         "kani": [],
     },
@@ -76,9 +81,11 @@ PROPS = {
         "units": {
             "heap": (None, ALL),
             "handlers": (None, ALL),
-            "coldpath": (None, ALL),
-            "select": (None, ALL),
-            "step": (None, ALL),
+            # only the conjuncts that speak about the heap and the counts (topic "acct"): a select-priority or
+            # scheduling clause of the same contract belongs to C05 / C15
+            "coldpath": (None, ALL, "acct"),
+            "select": (None, ALL, "acct"),
+            "step": (None, ALL, "acct"),
             "equality": (["Executor::handle_equal"], ALL),
             "transfer": (None, ALL),
         },
